@@ -822,29 +822,23 @@ func negIsPSKParrot(id tls.ClientHelloID) bool { return strings.Contains(id.Vers
 // parrot, applied through ApplyPreset like any user-supplied spec). Items: `s<hex>` cipher suite,
 // `v<hex>` supported_versions entry, `g<dec>` group (supported_groups and key_share), `alpn` the ALPN
 // extension, `cc` the compress_certificate extension.
-func negSpecFor(id tls.ClientHelloID, drop string) (tls.ClientHelloID, *tls.ClientHelloSpec, error) {
+func negSpecFor(id tls.ClientHelloID, drop, tmin, tmax string) (tls.ClientHelloID, *tls.ClientHelloSpec, error) {
 	items := splitList(drop)
-	if len(items) == 0 {
-		return id, nil, nil
-	}
 	spec, err := tls.UTLSIdToSpec(id)
 	if err != nil {
 		return id, nil, err
 	}
+	if len(items) == 0 && tmin == "" && tmax == "" {
+		return id, &spec, nil
+	}
+	if tmin != "" {
+		spec.TLSVersMin = negHex16(tmin)
+	}
+	if tmax != "" {
+		spec.TLSVersMax = negHex16(tmax)
+	}
 	for _, it := range items {
-		switch {
-		case it == "alpn" || it == "cc":
-			var keep []tls.TLSExtension
-			for _, e := range spec.Extensions {
-				_, isALPN := e.(*tls.ALPNExtension)
-				_, isCC := e.(*tls.UtlsCompressCertExtension)
-				if (it == "alpn" && isALPN) || (it == "cc" && isCC) {
-					continue
-				}
-				keep = append(keep, e)
-			}
-			spec.Extensions = keep
-		case strings.HasPrefix(it, "s"):
+		if strings.HasPrefix(it, "s") && it != "sv" && it != "sg" {
 			v := negHex16(it[1:])
 			var keep []uint16
 			for _, s := range spec.CipherSuites {
@@ -853,9 +847,47 @@ func negSpecFor(id tls.ClientHelloID, drop string) (tls.ClientHelloID, *tls.Clie
 				}
 			}
 			spec.CipherSuites = keep
+			continue
+		}
+		exts, err := negDropExt(spec.Extensions, it)
+		if err != nil {
+			return id, nil, err
+		}
+		spec.Extensions = exts
+	}
+	return tls.HelloCustom, &spec, nil
+}
+
+// negDropExt removes one item from an extension list: whole extensions `alpn`, `cc`
+// (compress_certificate), `sv` (supported_versions), `sg` (supported_groups), `ks` (key_share);
+// list entries `v<hex>` (a supported_versions entry), `g<dec>` (a group, from supported_groups and key_share).
+func negDropExt(exts []tls.TLSExtension, it string) ([]tls.TLSExtension, error) {
+	{
+		switch {
+		case it == "alpn" || it == "cc" || it == "sv" || it == "sg" || it == "ks":
+			var keep []tls.TLSExtension
+			for _, e := range exts {
+				_, isALPN := e.(*tls.ALPNExtension)
+				_, isCC := e.(*tls.UtlsCompressCertExtension)
+				_, isSV := e.(*tls.SupportedVersionsExtension)
+				_, isSG := e.(*tls.SupportedCurvesExtension)
+				_, isKS := e.(*tls.KeyShareExtension)
+				if (it == "alpn" && isALPN) || (it == "cc" && isCC) || (it == "sv" && isSV) || (it == "sg" && isSG) || (it == "ks" && isKS) {
+					continue
+				}
+				keep = append(keep, e)
+			}
+			return keep, nil
+		case it == "cz": // not a removal: compress_certificate advertises zlib only (the harness can produce real zlib)
+			for _, e := range exts {
+				if cc, ok := e.(*tls.UtlsCompressCertExtension); ok {
+					cc.Algorithms = []tls.CertCompressionAlgo{tls.CertCompressionZlib}
+				}
+			}
+			return exts, nil
 		case strings.HasPrefix(it, "v"):
 			v := negHex16(it[1:])
-			for _, e := range spec.Extensions {
+			for _, e := range exts {
 				if sv, ok := e.(*tls.SupportedVersionsExtension); ok {
 					var keep []uint16
 					for _, x := range sv.Versions {
@@ -869,9 +901,9 @@ func negSpecFor(id tls.ClientHelloID, drop string) (tls.ClientHelloID, *tls.Clie
 		case strings.HasPrefix(it, "g"):
 			g, err := strconv.Atoi(it[1:])
 			if err != nil {
-				return id, nil, err
+				return nil, err
 			}
-			for _, e := range spec.Extensions {
+			for _, e := range exts {
 				switch x := e.(type) {
 				case *tls.SupportedCurvesExtension:
 					var keep []tls.CurveID
@@ -892,10 +924,10 @@ func negSpecFor(id tls.ClientHelloID, drop string) (tls.ClientHelloID, *tls.Clie
 				}
 			}
 		default:
-			return id, nil, fmt.Errorf("bad drop item %q", it)
+			return nil, fmt.Errorf("bad drop item %q", it)
 		}
 	}
-	return tls.HelloCustom, &spec, nil
+	return exts, nil
 }
 
 // negExec runs one handshake described by the input tokens (see the generators below).
@@ -925,7 +957,7 @@ func negExec(in KV) string {
 		ForceSuiteTLS13:         negHex16(in["fs13"]),
 	}
 	curve12 := in["curve12"]
-	ccfg := &tls.Config{OmitEmptyPsk: negIsPSKParrot(id)}
+	ccfg := &tls.Config{OmitEmptyPsk: negIsPSKParrot(id), ServerName: "example.golang"}
 	if in["seed"] != "" {
 		ccfg.Rand = NewRng(in.U64("seed"))
 	}
@@ -938,9 +970,12 @@ func negExec(in KV) string {
 		scfg.SetSessionTicketKeys([][32]byte{{1, 2, 3, 4, 5, 6, 7, 8}})
 		ccfg.ClientSessionCache = tls.NewLRUClientSessionCache(4)
 		// priming connection: obtain a ticket (the echo makes the client read the NewSessionTicket)
-		pid, pspec, perr := negSpecFor(id, in["drop"])
+		pid, pspec, perr := negSpecFor(id, in["drop"], in["tmin"], in["tmax"])
 		if perr != nil {
 			return "out=bad-drop msg=" + sanitize(perr.Error())
+		}
+		if pid != tls.HelloCustom {
+			pspec = nil
 		}
 		prime := runHS(HSOpts{ID: pid, Spec: pspec, ClientCfg: ccfg, ServerCfg: scfg, AppData: []byte("prime")})
 		if prime.ClientErr != nil || !prime.EchoOK {
@@ -959,14 +994,62 @@ func negExec(in KV) string {
 	var ech bool
 	var ecdheG, hybrid int
 	var raw []byte
-	hsID, hsSpec, serr := negSpecFor(id, in["drop"])
+	hsID, hsSpec, serr := negSpecFor(id, in["drop"], in["tmin"], in["tmax"])
 	if serr != nil {
 		return "out=bad-drop msg=" + sanitize(serr.Error())
 	}
-	res := runHS(HSOpts{ID: hsID, Spec: hsSpec, ClientCfg: ccfg, ServerCfg: scfg, Hooks: hooks, AppData: []byte("ping"),
+	// the spec as declared (for the model's SetTLSVers): explicit min/max and every supported_versions list
+	var specExts []string
+	for _, e := range hsSpec.Extensions {
+		if sv, ok := e.(*tls.SupportedVersionsExtension); ok {
+			var vs []string
+			for _, v := range sv.Versions {
+				vs = append(vs, fmt.Sprintf("%04x", v))
+			}
+			if len(vs) == 0 {
+				specExts = append(specExts, "e")
+			} else {
+				specExts = append(specExts, strings.Join(vs, "."))
+			}
+		}
+	}
+	specTok := fmt.Sprintf("spec=%04x,%04x specexts=%s", hsSpec.TLSVersMin, hsSpec.TLSVersMax, joinList(specExts))
+	specArg := hsSpec
+	if hsID != tls.HelloCustom {
+		specArg = nil
+	}
+	// caller-pinned Config bounds, and an earlier connection that used the same *Config (UClient does
+	// not clone it; whatever SetTLSVers / writeToUConn left there is what this connection starts from)
+	ccfg.MinVersion, ccfg.MaxVersion = negHex16(in["cmin"]), negHex16(in["cmax"])
+	if p := in["prev"]; p != "" {
+		pid, ok := idByName(p)
+		if !ok {
+			return "out=bad-prev"
+		}
+		u0 := tls.UClient(nullConn{}, ccfg, pid)
+		if err := u0.BuildHandshakeState(); err != nil {
+			return "out=prepare-error msg=prev:" + sanitize(err.Error())
+		}
+	}
+	edits := splitList(in["edit"])
+	res := runHS(HSOpts{ID: hsID, Spec: specArg, ClientCfg: ccfg, ServerCfg: scfg, Hooks: hooks, AppData: []byte("ping"),
 		Prepare: func(u *tls.UConn) error {
 			if err := u.BuildHandshakeState(); err != nil {
 				return err
+			}
+			if len(edits) > 0 {
+				// "edited after build": the caller inspects the built hello, removes extensions from
+				// uconn.Extensions and handshakes; Handshake re-applies and re-marshals what is left
+				for _, it := range edits {
+					exts, err := negDropExt(u.Extensions, it)
+					if err != nil {
+						return err
+					}
+					u.Extensions = exts
+				}
+				if err := u.BuildHandshakeState(); err != nil {
+					return err
+				}
 			}
 			cfgMin, cfgMax, ech = tls.VerifConfigVersions(u)
 			if ks := u.HandshakeState.State13.KeyShareKeys; ks != nil {
@@ -1052,7 +1135,7 @@ func negExec(in KV) string {
 	if rs := splitRecords(res.ServerWire); len(rs) > 0 {
 		recv = int(rs[0].Version)
 	}
-	return fmt.Sprintf("ch=%s ch2=%s cfg=%04x,%04x,%d keys=%d,%d psks=%s sh=%s recv=%04x ee=%s cert=%s skx=%d applied=%d cerr=%s calert=%s salert=%s state=%s app=%d timeout=%d",
+	return specTok + fmt.Sprintf(" ch=%s ch2=%s cfg=%04x,%04x,%d keys=%d,%d psks=%s sh=%s recv=%04x ee=%s cert=%s skx=%d applied=%d cerr=%s calert=%s salert=%s state=%s app=%d timeout=%d",
 		hx(raw), ch2, cfgMin, cfgMax, e, ecdheG, hybrid, pskSuite, joinList(n.sentSH), recv, ee, cert, n.skx, n.applied,
 		errClass(res.ClientErr), calert, errClass(res.ServerErr), state, app, to)
 }
@@ -1154,6 +1237,18 @@ var c12Modes = []negMode{
 	{"custom13-noalpn-foreign", "smax=0304 drop=alpn calpn=7a7a2d7665726966 rw=ee.alpn.foreign"},
 	{"custom12-noalpn-foreign", "smax=0303 drop=alpn calpn=7a7a2d7665726966 rw=sh.alpn.foreign"},
 	{"custom13-nocc-zlib", "smax=0304 drop=cc rw=cert.comp.zlib"},
+	// edited after build: BuildHandshakeState, then an extension whose writeToUConn caches state in the
+	// UConn / Hello is removed from uconn.Extensions, then Handshake; the server selects the removed value
+	{"edit13-cc-ctl", "smax=0304 edit=cc"},
+	{"edit13-cc-zlib", "smax=0304 edit=cc rw=cert.comp.zlib"},
+	{"edit13-cc-unadv", "smax=0304 edit=cc rw=cert.comp.unadv"},
+	{"custom13-cz-zlib", "smax=0304 drop=cz rw=cert.comp.zlib"},
+	{"edit13-cz-cc-zlib", "smax=0304 drop=cz edit=cc rw=cert.comp.zlib"},
+	{"edit13-alpn-ctl", "smax=0304 edit=alpn"},
+	{"edit13-alpn-h2", "smax=0304 edit=alpn rw=ee.alpn.x6832"},
+	{"edit12-alpn-h2", "smax=0303 edit=alpn rw=sh.alpn.x6832"},
+	{"edit13-alpn-cc-h2", "smax=0304 edit=alpn,cc rw=ee.alpn.x6832"},
+	{"edit12-sg-p256", "smax=0303 edit=sg curve12=0017"},
 	// two at once (first failing check decides the alert)
 	{"combo13-suite-sid", "smax=0304 rw=sh.suite.unknown+sh.sid.flip"},
 	{"combo13-comp-group", "smax=0304 rw=sh.comp.1+sh.group.unlisted"},
